@@ -42,6 +42,8 @@ def sessions(r, conformant=False):
         evs.append(("d", gens.ENQ))
         ending = r.choice(["eot", "eot", "eot", "eot-empty", "abandoned", "lost", "timeout", "eot-after-bad"])
         n_msgs = 0 if ending == "eot-empty" else r.choice([1, 1, 2, 3])
+        if ending in ("abandoned", "eot-after-bad", "lost", "timeout") and r.random() < 0.4:
+            n_msgs = 0
         for _ in range(n_msgs):
             text = json_conformant_text(r) if conformant else None
             frames, text = gens.message_frames(r, seq=r.randrange(8), text=text)
